@@ -449,6 +449,9 @@ pub fn generate(run_seed: u64) -> Scenario {
         fuel: crate::eval::fuel_override().unwrap_or(FUEL),
         corrupt_events: 0,
         variants,
+        // one scenario in six is executed twice: the two executions must agree
+        // op by op (hash-map keys, addresses and thread ids differ between them)
+        repeat_check: run_seed % 6 == 0,
     }
 }
 
